@@ -3,16 +3,70 @@ GO_PKGNAME = "keystore"
 HARNESS = ["keystore/c20_test.go"]
 GO_TEST = "TestVerifC20"
 RUN_MODULE = "Run_C20"
-COQ_TARGETS = ["Corr/Run_C20.vo"]
-N = {"quick": 300, "thorough": 6000}
-RULE = "tbd"
-TRUSTED = []
-ASSUMPTIONS = []
+COQ_TARGETS = ["Corr/Run_C20.vo", "Proofs/KeystoreProofs.vo", "Proofs/ResetKeystoreProofs.vo"]
+N = {"quick": 300, "thorough": 9000}
+RULE = ("two kinds of cases. plain (2 of 3): random histories of 3-60 operations on the real keystore over a recording, "
+        "fault-injecting datastore: put/delete (1-6 keys, 4% with a repeated key)/empty, each with a 12% chance of one failing "
+        "Has/Commit/Sync, get/count/contains with prefixes of 0-16 bits around clustered keys (prefixBits 0/8/16, batch size 1-5 or 64), "
+        "clean restarts, and crashes cutting the journal anywhere inside the last operation; non-trivial when a branch among "
+        "put-some-new / long-prefix hit or miss / count capped / multi-batch empty / fault hit / restart / crash losing writes is reached. "
+        "reset (1 of 3): the real ResettableKeystore inside a testing/synctest bubble, every datastore call made on behalf of ResetCids "
+        "parked at a gate; 0-3 puts before, optionally a first undisturbed reset, then ResetCids with 0-11 keys fed one by one, ticker "
+        "firings, 1-6 concurrent puts placed at random gates of every phase (bulk, refresh, catch-up, final drain, marker, teardown), "
+        "optionally one failing datastore call (commit/sync/query/has of the alternate slot, marker put, marker sync), a cancellation "
+        "or a Close at a random gate, a put afterwards, Close; then a keystore is reopened on EVERY prefix of the journal and compared "
+        "with the allowed sets. three fixed scenarios (same key put twice after phase B; failing marker write; cancellation during "
+        "opStart) are part of every run. distinct = distinct (kind, branch set, size class) signatures")
+TRUSTED = [
+    "the harness' in-memory datastore (insertion-ordered map + journal + sync points + fault injection + gates) and go-datastore's "
+    "NaiveQueryApply prefix/limit semantics, namespace.Wrap key transform, BasicBatch-like atomic commit",
+    "durability model: a crash keeps a prefix of the write journal not shorter than the last successful Sync (write-ahead-log datastores "
+    "such as pebble); a Sync of any prefix makes the whole journal durable",
+    "sha256 / MhToBit256 / dsKey base64 suffix: modelled by the pair (leading 20 identifier bits, key identity) supplied by the harness; "
+    "injectivity checked per pool by construction (distinct multihashes)",
+    "testing/synctest scheduling and the translation of gated datastore calls into model events (harness/keystore/c20_test.go, c20Tr)",
+]
+ASSUMPTIONS = [
+    "keys of one Put/Delete call are pairwise distinct, and no key is put twice between phase B of a reset and its final drain "
+    "(hypotheses keys_ok / ev_ok; without them the code miscounts: c20_put_duplicate_refuted, c20_reset_duplicate_size_refuted)",
+    "the marker write of a reset does not fail (otherwise c20_marker_write_fails_refuted) and the caller does not cancel while "
+    "opStart runs (otherwise c20_cancel_during_start_wedges_refuted)",
+    "shared-datastore mode only (WithDatastoreFactory is not modelled); concurrent operations during a reset are Puts",
+    "query prefixes are at most 16 bits, compared on the leading 20 bits of the identifiers",
+]
 
 
 def classify(desc, code):
+    """Stable key of a failing case that is one of the known findings of C20."""
+    kind = desc.get("kind")
+    if kind == "plain":
+        # Coq verdict 4: the first deviation from the set specification is at a Put/Delete naming a key twice
+        if code == 4:
+            return "seen-map-never-dedups"
+        return None
+    if kind == "reset" and code == 3:
+        hz = desc.get("hazard") or ""
+        fk = desc.get("oracle_fail") or ""
+        if hz == "marker-put-fail" and fk == "content":
+            return "reset-marker-write-fails"
+        if hz == "cancel-during-opstart" and fk == "wedged":
+            return "reset-cancel-during-opstart-wedges-worker"
+        if hz in ("dup-in-call", "dup-buffered") and fk == "size-only":
+            return "seen-map-never-dedups"
     return None
 
-TECHNIQUE = "tbd"
-LEVEL_TEXT = "tbd"
-LEVEL_NOTE = "tbd"
+
+TECHNIQUE = ("Coq proof (set refinement of the plain keystore by invariant over operation histories incl. restarts, crashes and injected "
+             "failures; invariant of the reset state machine by induction over event lists, crash theorem for every journal prefix) on "
+             "Gallina models, differential correspondence with the real keystore types, Go-side reopen-on-every-journal-prefix oracle")
+LEVEL_TEXT = ("Theorems in coq/Props/C20.v hold for histories and interleavings of any length: Put returns exactly the new keys, "
+              "Get/Count/ContainsPrefix are exact for short and long prefixes, Size is the cardinality, the persisted size is absent or exact "
+              "at every crash point, acknowledged writes survive crashes; for the resettable keystore every crash point under every "
+              "interleaving of concurrent Puts, aborts and Close reopens to the complete old or the complete new set with the acknowledged "
+              "puts and a matching size. Four statements are refuted by machine-checked witnesses and reproduced on the real code: "
+              "repeated keys in one call are counted twice, the same after phase B of a reset, a failing marker write loses the store, "
+              "cancellation during opStart blocks the worker forever.")
+LEVEL_NOTE = ("Proof is about the Gallina models; the tie to the Go code is the correspondence run (differential testing, bounded by the "
+              "generator) plus the Go-side oracle. Partial: failing marker Sync, failures inside the teardown and failing datastore calls of "
+              "concurrent Puts during a reset are not modelled (oracle only); factory mode is not covered; continuing a history after a "
+              "crash of the resettable keystore is proved only for the plain keystore (part 1).")
